@@ -159,6 +159,12 @@ theorem dirsAfter_made_undo (ps : List Path) (mid : List Effect) (h : ∀ e ∈ 
   intro d hd
   simp [hd]
 
+theorem safePath_inside {os : UOS} {c : UCfg} {t : Path} (h : safePath os c t = true) : inside c.dir t = true := by
+  simp only [safePath, Bool.and_eq_true] at h; exact h.1
+
+theorem safePath_fix {os : UOS} {c : UCfg} {t : Path} (h : safePath os c t = true) : os.realpath t = some t := by
+  simp only [safePath, Bool.and_eq_true, beq_iff_eq] at h; exact h.2
+
 /-! ### case analysis -/
 def Guard (c : UCfg) (r : UReq) : Prop := authOk c r = true ∧ r.size ≤ c.maxSize ∧ typeOk c r = true
 
@@ -166,7 +172,7 @@ theorem handleUpload_cases (os : UOS) (c : UCfg) (f : Faults) (r : UReq) :
     ((handleUpload os c f r).2 = [] ∧ (handleUpload os c f r).1 ≠ .s20) ∨
     (∃ t, Guard c r ∧ r.size = 0 ∧ c.enableDelete = true ∧ os.resolve (c.dir ++ r.comps) = some t ∧
         handleUpload os c f r = deleteAt os c f t) ∨
-    (∃ t, Guard c r ∧ r.size ≠ 0 ∧ os.resolve (c.dir ++ r.comps) = some t ∧ inside c.dir t = true ∧ t ≠ c.dir ∧
+    (∃ t, Guard c r ∧ r.size ≠ 0 ∧ os.resolve (c.dir ++ r.comps) = some t ∧ safePath os c t = true ∧ t ≠ c.dir ∧
         handleUpload os c f r = store os c f t (r.content.take r.size)) := by
   unfold handleUpload
   by_cases h1 : authOk c r = true
@@ -189,7 +195,7 @@ theorem handleUpload_cases (os : UOS) (c : UCfg) (f : Faults) (r : UReq) :
           · cases hres : os.resolve (c.dir ++ r.comps) with
             | none => left; simp [h1, h2, h3, h4, h6, hres]
             | some t =>
-              by_cases h7 : inside c.dir t = true
+              by_cases h7 : safePath os c t = true
               · by_cases h8 : t = c.dir
                 · left; simp [h1, h2, h3, h4, h6, hres, h8]
                 · right; right
@@ -200,10 +206,10 @@ theorem handleUpload_cases (os : UOS) (c : UCfg) (f : Faults) (r : UReq) :
 
 theorem deleteAt_cases (os : UOS) (c : UCfg) (f : Faults) (t : Path) :
     ((deleteAt os c f t).2 = [] ∧ (deleteAt os c f t).1 ≠ .s20) ∨
-    (inside c.dir t = true ∧ os.kind t ≠ .missing ∧
+    (safePath os c t = true ∧ os.kind t ≠ .missing ∧
       (deleteAt os c f t = (.s20, [.unlink t true]) ∨ deleteAt os c f t = (.s40, [.unlink t false]))) := by
   unfold deleteAt
-  by_cases h1 : inside c.dir t = true
+  by_cases h1 : safePath os c t = true
   · by_cases h2 : probeLong os.toOS c c.dir (t.drop c.dir.length) = true
     · left; simp [h1, h2]
     · by_cases h3 : os.kind t = .missing
